@@ -469,7 +469,12 @@ def match_dynamic_array_overflow_condition(cond: BitVecRef) -> bool:
     left, right = ule.arg(0), ule.arg(1)
 
     # Not(ULE(f_sha3_N(slot), offset + base))
-    if not (is_f_sha3_name(left.decl().name()) and is_app_of(right, Z3_OP_BADD)):
+    # note: bvadd may be n-ary after simplification; `offset + base + other` can wrap around for a suitable `other`
+    if not (
+        is_f_sha3_name(left.decl().name())
+        and is_app_of(right, Z3_OP_BADD)
+        and right.num_args() == 2
+    ):
         return False
     offset, base = right.arg(0), right.arg(1)
 
